@@ -770,6 +770,11 @@ func (e *Env) builtin(name string, x *ast.CallExpr) (Val, bool) {
 			e.fail("str() wants a byte slice")
 		}
 		return Val{Typ: tStr, L: []T{e.c.strOfBytes(e.st, sl.Elem(), v)}}, true
+	case "errIs":
+		// errors.Is(e, t) as modelled by the intrinsic
+		a, b := e.eval(arg(0)), e.eval(arg(1))
+		same := and(eq(a.L[0], b.L[0]), eq(a.L[1], b.L[1]))
+		return boolVal(ite(eq(a.L[0], "0"), eq(b.L[0], "0"), or(same, app("wraps", a.L[1], b.L[1])))), true
 	case "isErr":
 		v := e.eval(arg(0))
 		return boolVal(not(eq(v.L[0], "0"))), true
@@ -954,6 +959,39 @@ func (e *Env) designator(x ast.Expr) []ModLoc {
 		// elems(x), ghost counters: count(name)
 		if id, ok := x.Fun.(*ast.Ident); ok && id.Name == "count" {
 			return []ModLoc{{Key: "ghost:" + x.Args[0].(*ast.Ident).Name, Glob: true, Sort: sInt}}
+		}
+		// named designator lists
+		var ms *ModSet
+		var mpkg string
+		if id, ok := x.Fun.(*ast.Ident); ok {
+			ms = e.c.P.CS.ModSets[e.pkgKey()+"."+id.Name]
+		} else if se, ok := x.Fun.(*ast.SelectorExpr); ok {
+			if id, ok := se.X.(*ast.Ident); ok {
+				if p := e.c.P.lookupPkgByName(e.pkg, id.Name); p != nil {
+					ms = e.c.P.CS.ModSets[pkgKeyOf(p.Path())+"."+se.Sel.Name]
+				}
+			}
+		}
+		if ms != nil {
+			mpkg = ms.Pkg
+			if len(x.Args) != len(ms.Params) {
+				e.fail("modset %s expects %d arguments", ms.Name, len(ms.Params))
+			}
+			n := *e
+			n.vars = map[string]Val{}
+			for i, a := range x.Args {
+				n.vars[ms.Params[i]] = e.eval(a)
+			}
+			n.fr = nil
+			n.params = nil
+			if p := e.c.P.Pkgs[mpkg]; p != nil {
+				n.pkg = p.Pkg
+			}
+			var out []ModLoc
+			for _, d := range ms.Exprs {
+				out = append(out, n.designator(d)...)
+			}
+			return out
 		}
 	}
 	e.fail("bad designator %s", exprString(x))
